@@ -38,12 +38,16 @@ structure CFiles where
   tmp : Option (List Val)
   deriving Repr, DecidableEq
 
-/-- file system: cache id ↦ its two files -/
-abbrev FS := Nat → CFiles
+/-- file system: cache id ↦ its two files (a structure around the function, so that an update evaluates
+the new entry once, when it is made) -/
+structure FS where
+  files : Nat → CFiles
 
-def FS.empty : FS := fun _ => ⟨none, none⟩
+instance : CoeFun FS (fun _ => Nat → CFiles) := ⟨FS.files⟩
 
-def FS.set (fs : FS) (c : Nat) (f : CFiles) : FS := fun d => if d = c then f else fs d
+def FS.empty : FS := ⟨fun _ => ⟨none, none⟩⟩
+
+def FS.set (fs : FS) (c : Nat) (f : CFiles) : FS := ⟨fun d => if d = c then f else fs d⟩
 
 /-- `open(tmp_filename, "wb")`: the name denotes an empty file afterwards -/
 def FS.openTmpW (fs : FS) (c : Nat) : FS := fs.set c { fs c with tmp := some [] }
